@@ -42,7 +42,7 @@ OBLIGATIONS = {"dtype:int": 40, "dtype:uint": 40, "dtype:float": 30, "dtype:64bi
                "bigendian": 20, "dict": 50, "clone": 50, "clip": 30,
                "catchment-dict": 20, "catchment-dict:inlets": 10,
                "nodata:nondefault": 40, "values:extreme": 20, "layout-variant": 30,
-               "resave": 30}
+               "resave": 30, "clip:corner-on-edge": 10}
 
 DTYPES = [np.int8, np.int16, np.int32, np.int64, np.uint8, np.uint16, np.uint32,
           np.uint64, np.float16, np.float32, np.float64]
@@ -352,8 +352,14 @@ def run_case(ctx, case):
         csz = float(gr.cellsize)
         # corners strictly inside the lower-left and upper-right cells of the box
         fx0, fy0, fx1, fy1 = rng.uniform(0.1, 0.9, size=4)
-        edge = int(rng.integers(0, 4))
-        if edge == 1:
+        edge = int(rng.integers(0, 6))
+        if edge >= 4:
+            # corners exactly on cell edges, written as a user writes them
+            # (round(k * cellsize, 10)): which cell holds such a corner is a rounding
+            # matter, but the clipped grid must still agree with its parent
+            fx0, fy0 = 0.0, 0.0
+            fx1, fy1 = (1.0, 1.0) if edge == 4 else (0.5, 0.5)
+        elif edge == 1:
             fx0 = fy0 = fx1 = fy1 = 0.5              # exactly on the cell centres
         elif edge == 2:
             fx0, fy0, fx1, fy1 = 0.001, 0.001, 0.999, 0.999   # close to the edges
@@ -363,6 +369,10 @@ def run_case(ctx, case):
         xu = float(gr.xllcorner) + (c1 + fx1) * csz
         yl = float(gr.yllcorner) + (nrows - 1 - r1 + fy0) * csz
         yu = float(gr.yllcorner) + (nrows - 1 - r0 + fy1) * csz
+        if edge >= 4:
+            xl, yl = round(xl, 10), round(yl, 10)
+            if edge == 4:
+                xu, yu = round(xu, 10), round(yu, 10)
         # the cells that hold the two corners, located in exact arithmetic from the
         # float coordinates actually passed; corners too close to a cell edge for
         # the geometry's own resolution are not judged
@@ -375,6 +385,33 @@ def run_case(ctx, case):
         if ca < 0 or cb < 0 or min(da, db) < max(1e-6, res):
             ctx.extra["clip-corner-on-edge-not-judged"] += 1
             ca = None
+            # ... for its extent. Whatever block is cut, every cell of the clipped grid
+            # must sit on a parent cell centre and hold that parent cell's value.
+            try:
+                with warnings.catch_warnings():
+                    warnings.simplefilter("ignore")
+                    cge = gr.clip(xl, yl, xu, yu)
+                cce = cge.cell2coord(np.arange(cge.nrows * cge.ncols))
+            except Exception:
+                cge = None
+            if cge is not None and cge.nrows * cge.ncols > 0 and res <= 0.01:
+                # (only where the float geometry resolves a hundredth of a cell)
+                ctx.tag("clip:corner-on-edge")
+                ctx.api("Grid.clip")
+                dat = np.asarray(cge.data).ravel()
+                badc = None
+                for j, (cx, cy) in enumerate(cce):
+                    pc, dist = gm.locate(float(cx), float(cy))
+                    if pc < 0 or dist < 0.48 or \
+                            not values_equal(dat[j:j + 1], stored.ravel()[pc:pc + 1]):
+                        badc = (j, float(cx), float(cy), int(pc), float(dist))
+                        break
+                ctx.check("clip.on-edge.consistent", badc is None,
+                          f"clip|corner-on-cell-edge|inconsistent-with-parent|{tagk}", case,
+                          lambda: {"box": [xl, yl, xu, yu],
+                                   "clip_cell,x,y,parent_cell,dist_to_edge": badc,
+                                   "clip_xll": float(cge.xllcorner),
+                                   "clip_yll": float(cge.yllcorner)})
         else:
             (ra, ka), (rb, kb) = gm.rowcol(ca), gm.rowcol(cb)
             r0, r1, c0, c1 = rb, ra, ka, kb
